@@ -69,6 +69,10 @@ SETTINGS = [
     {"default": ["inputs", "outputs", "parameters", "op_cost"]},
     {"default": ["op_cost"], "QConv2D": ["inputs", "outputs"], "QDense": ["parameters"], "Add": []},
     {"QActivation": ["outputs", "inputs"]},  # no default: nothing selected for the other classes
+    # keys of the stock classes only: a Q layer is looked up under its own class name, then "default"
+    {"default": ["op_cost"], "Dense": ["inputs", "parameters"], "Conv2D": ["outputs"], "DepthwiseConv2D": ["parameters"],
+     "Activation": ["inputs"]},
+    {"Dense": ["parameters"], "Conv2D": ["inputs"], "AveragePooling2D": ["outputs"]},
 ]
 COUNTED = ("conv", "dw", "dense", "avgpool", "gap", "merge")
 EST_CLASSES = ("QDense", "QConv2D", "QConv1D", "QDepthwiseConv2D")
